@@ -234,6 +234,13 @@ func c08Oracle(r *Run, in c08Input, w *c08World, initial []c08SpeciesObs, obs c0
 				continue
 			}
 			d := genetics.VC07Compatibility(o.Genotype, sp.rep.Genotype, opts)
+			// the distance speciation works with is the NEAT formula, recomputed here from the two gene lists by
+			// set logic (independent of both compatibility methods)
+			if want, finite := c08Formula(o.Genotype, sp.rep.Genotype, opts); finite && !(math.Abs(d-want) <= 1e-9*(1+math.Abs(want))) {
+				fail("distance-not-the-formula", fmt.Sprintf("the compatibility distance between organism %d and the representative of species position %d is %v, the formula gives %v",
+					o.Genotype.Id, i, d, want), d, want)
+				return
+			}
 			if math.IsNaN(d) {
 				return // a NaN distance (overflow in an extreme case): the order on distances is not total, skip
 			}
@@ -660,4 +667,50 @@ func replayC08(r *Run, input []byte) error {
 	}
 	c08One(r, nil, 0, in)
 	return nil
+}
+
+// c08Formula: excess_coeff*E + disjoint_coeff*D + mutdiff_coeff*W by set logic over the two gene lists; finite
+// reports whether every ingredient is an ordinary number (extreme cases that overflow are left to C07)
+func c08Formula(a, b *genetics.Genome, opts *neat.Options) (float64, bool) {
+	inA, inB := map[int64]float64{}, map[int64]float64{}
+	maxA, maxB := int64(math.MinInt64), int64(math.MinInt64)
+	for _, g := range a.Genes {
+		inA[g.InnovationNum] = g.MutationNum
+		if g.InnovationNum > maxA {
+			maxA = g.InnovationNum
+		}
+	}
+	for _, g := range b.Genes {
+		inB[g.InnovationNum] = g.MutationNum
+		if g.InnovationNum > maxB {
+			maxB = g.InnovationNum
+		}
+	}
+	e, d, m, sum := 0, 0, 0, 0.0
+	for _, g := range a.Genes {
+		if mb, ok := inB[g.InnovationNum]; ok {
+			m++
+			sum += math.Abs(g.MutationNum - mb)
+		} else if len(b.Genes) == 0 || g.InnovationNum > maxB {
+			e++
+		} else {
+			d++
+		}
+	}
+	for _, g := range b.Genes {
+		if _, ok := inA[g.InnovationNum]; ok {
+			continue
+		}
+		if len(a.Genes) == 0 || g.InnovationNum > maxA {
+			e++
+		} else {
+			d++
+		}
+	}
+	w := 0.0
+	if m > 0 {
+		w = sum / float64(m)
+	}
+	v := opts.ExcessCoeff*float64(e) + opts.DisjointCoeff*float64(d) + opts.MutdiffCoeff*w
+	return v, !math.IsNaN(v) && !math.IsInf(v, 0) && !math.IsInf(sum, 0)
 }
